@@ -1,2 +1,25 @@
+import os
+from vlib import REPO
+
+
 def run(ctx):
-    pass
+    """C07, second sentence: cache_interface / triggers_recorder dependency propagation."""
+    ctx.design("Cache/Front.tla", "Front_quick.cfg" if ctx.quick else "Front.cfg", workers=12, timeout=1500,
+               note="cache_interface: Dep, MechanismMatchesHistory; 2 names, 1 page, 2 nested recorders")
+    exe = ctx.harness("front_drv", ["cache/front_drv.cpp"], extra=["-I" + REPO + "/tests"])
+    runs = [(250, 25, 3), (150, 40, 5)] if ctx.quick else [(1500, 25, 3), (1500, 40, 4), (1000, 60, 6), (2000, 10, 2)]
+    for i, spec in enumerate(runs):
+        t = os.path.join(ctx.work, "front-%d.ndjson" % i)
+        rc, out, err = ctx.run_harness(exe, spec, trace=t, timeout=900)
+        if rc != 0:
+            ctx.undecided.append("front_drv %s failed rc=%s %s" % (spec, rc, err[-400:]))
+            continue
+        with open(t) as f:
+            lines = f.readlines()
+        if i == 0:
+            ctx.sample({"driver(requests,ops,names)": list(spec), "first_events": [x.strip() for x in lines[:8]]})
+        for ln in lines[:6000]:
+            ctx.seen("front:" + ln[:70])
+        for x in ctx.validate("Cache/FrontTrace.tla", "FrontTrace.cfg", t):
+            ctx.violation("front:%s" % x["event"].split('"')[3], "cache_interface trace violates Dep / fetch semantics at %s" % x["event"][:200], x["path"])
+        os.remove(t)
